@@ -142,7 +142,7 @@ func (im *Img) clone() *Img {
 func drawRect(t *tape.Tape, maxSide int) image.Rectangle {
 	x0, y0 := t.Range(-6, 6), t.Range(-6, 6)
 	var w, h int
-	switch t.Pick(6, 1, 1, 1) {
+	switch t.Pick(24, 4, 4, 4, 1) {
 	case 0:
 		w, h = 1+t.Intn(maxSide), 1+t.Intn(maxSide)
 	case 1:
@@ -151,6 +151,20 @@ func drawRect(t *tape.Tape, maxSide int) image.Rectangle {
 		w, h = 1+t.Intn(maxSide), 1
 	case 3:
 		w, h = t.Intn(2), t.Intn(3) // empty
+	case 4:
+		// one run in 37: a side beyond the thresholds small images never reach
+		// (8-bit counters, 64 / 128 / 256-row or -pixel blocks, more rows than any
+		// parallelism drawn), the other side small so that the run stays cheap
+		long := [...]int{63, 64, 65, 127, 128, 129, 255, 256, 257, 300, 513, 1025}[t.Intn(12)]
+		short := 1 + t.Intn(4)
+		if t.Bool() {
+			w, h = long, short
+		} else {
+			w, h = short, long
+		}
+		if t.Chance(1, 6) {
+			w, h = 64+t.Intn(3), 64+t.Intn(3)
+		}
 	}
 	return image.Rect(x0, y0, x0+w, y0+h)
 }
